@@ -43,6 +43,13 @@ pub struct GenCfg {
     pub serial_adds: bool,
     pub max_restarts: usize,
     pub word_domain_wide: bool,
+    /// finish the session with shutdown + exit (so that statistics are saved)
+    #[serde(default)]
+    pub end_with_shutdown: bool,
+    /// choose the dictionary/statistics paths once, in the initial settings (and never change them
+    /// unless `use_paths` is set)
+    #[serde(default)]
+    pub paths_at_start: bool,
 }
 
 pub fn doc_path(name: &str) -> String {
@@ -58,10 +65,12 @@ pub fn initial_docs(cfg: &GenCfg, rng: &mut Rng) -> Vec<Doc> {
     for i in 0..cfg.n_docs {
         let lang = cfg.langs[i % cfg.langs.len()].clone();
         let ext = corpus::extension(&lang);
+        let ext0 = corpus::extension(&cfg.langs[0]);
         let name = if cfg.adversarial_paths {
+            // pairs that a careless mapping from path to per-file dictionary name confuses
             match i {
-                0 => format!("a/bc.{ext}"),
-                1 => format!("ab/c.{ext}"),
+                0 => format!("x/a%b.{ext0}"),
+                1 => format!("x/a/b.{ext0}"),
                 _ => format!("100%/d{i} x.{ext}"),
             }
         } else {
@@ -141,6 +150,11 @@ impl Generator {
             return Some(e);
         }
         if self.remaining == 0 {
+            if self.cfg.end_with_shutdown && !self.finished {
+                self.finished = true;
+                self.queue.push_back(msg(true, notif("exit", Value::Null)));
+                return Some(msg(true, request(next_id, "shutdown", Value::Null)));
+            }
             self.finished = true;
             return None;
         }
@@ -290,7 +304,7 @@ impl Generator {
             _ => {
                 self.restarts += 1;
                 self.boot(c, &mut next_id, true);
-                ScriptEntry { wait_quiet: false, op: Op::Kill }
+                ScriptEntry { wait_quiet: false, op: Op::Kill { torn: None } }
             }
         };
         Some(entry)
@@ -421,6 +435,11 @@ fn mutate_settings(cur: &Settings, cfg: &GenCfg, rng: &mut Rng) -> Settings {
 
 pub fn initial_settings(cfg: &GenCfg, rng: &mut Rng) -> Settings {
     let mut s = Settings::default();
+    if cfg.paths_at_start {
+        s.user_dict_path = rng.pick(&[None, None, Some(format!("{WORLD}/cfg/user-dict.txt")), Some(format!("{WORLD}/cfg2/deep/dir/words.txt"))]).clone();
+        s.file_dict_path = rng.pick(&[None, None, Some(format!("{WORLD}/cfg/filedicts")), Some(format!("{WORLD}/cfg2/fd/"))]).clone();
+        s.stats_path = rng.pick(&[None, Some(format!("{WORLD}/cfg/stats.txt"))]).clone();
+    }
     if rng.chance(1, 2) {
         for _ in 0..rng.range(0, 3) {
             s = mutate_settings(&s, cfg, rng);
